@@ -163,9 +163,98 @@ func (tr *Trans) staticCall(fn *ssa.Function, binds []Val, args []Val, in ssa.In
 		} else {
 			tr.g.calleesUsed[key] = "contract"
 		}
-		return tr.applyContract(ct, fn, fn.Signature, args, in, resT, key, false)
+		switch key {
+		case "(*sync.Mutex).Lock":
+			tr.interfere("sync.Mutex")
+		case "(*sync.RWMutex).Lock", "(*sync.RWMutex).RLock":
+			tr.interfere("sync.RWMutex")
+		}
+		res := tr.applyContract(ct, fn, fn.Signature, args, in, resT, key, false)
+		switch key {
+		case "(*sync.Mutex).Unlock":
+			tr.st.set("L$relsd$sync.Mutex", tTrue)
+		case "(*sync.RWMutex).Unlock", "(*sync.RWMutex).RUnlock":
+			tr.st.set("L$relsd$sync.RWMutex", tTrue)
+		}
+		return res
 	}
 	return tr.havocCall(key, args, resT, in)
+}
+
+// interfere models other goroutines at a lock acquisition: if this function has already released a lock of this
+// kind, everything declared guarded_by such a lock may have changed in between (a second critical section does not
+// see the state the first one left). The first acquisition is the function's linearisation point: the entry state.
+func (tr *Trans) interfere(kind string) {
+	g := tr.g
+	rel := tr.st.get(tr.e, "L$relsd$"+kind, SBool)
+	if rel.S == "false" {
+		return
+	}
+	var ts []target
+	seen := map[string]bool{}
+	add := func(key string, sort Sort) {
+		if !seen[key] {
+			seen[key] = true
+			ts = append(ts, target{key: key, sort: sort, whole: true, cond: rel})
+		}
+	}
+	var addType func(structT types.Type, fv *types.Var, depth int)
+	addType = func(structT types.Type, fv *types.Var, depth int) {
+		ft := fv.Type()
+		if isObjType(ft) {
+			if st, ok := under(ft).(*types.Struct); ok && depth < 3 {
+				for i := 0; i < st.NumFields(); i++ {
+					addType(ft, st.Field(i), depth+1)
+				}
+			}
+			return
+		}
+		for _, c := range comps(ft) {
+			add(fieldKeyOf(structT, fv.Name())+c.Suffix, arrSort(SInt, c.Sort))
+		}
+		if mt, ok := under(ft).(*types.Map); ok {
+			if mk := mapKeys(mt); mk != nil {
+				add(mk.has, mk.hasSort)
+				add(mk.length, arrSort(SInt, SInt))
+				for _, ks := range mk.vals {
+					add(ks.key, ks.sort)
+				}
+			}
+		}
+	}
+	for _, gb := range g.specs.Guarded {
+		parts := strings.Split(gb.Field, ".")
+		if len(parts) != 3 {
+			continue
+		}
+		pk := g.ld.pkgByName[parts[0]]
+		if pk == nil {
+			continue
+		}
+		obj := pk.Scope().Lookup(parts[1])
+		if obj == nil {
+			continue
+		}
+		st, ok := under(obj.Type()).(*types.Struct)
+		if !ok {
+			continue
+		}
+		mname := gb.Mutex[strings.LastIndex(gb.Mutex, ".")+1:]
+		var fld, mu *types.Var
+		for i := 0; i < st.NumFields(); i++ {
+			if st.Field(i).Name() == parts[2] {
+				fld = st.Field(i)
+			}
+			if st.Field(i).Name() == mname {
+				mu = st.Field(i)
+			}
+		}
+		if fld == nil || mu == nil || typeKey(mu.Type()) != kind {
+			continue
+		}
+		addType(obj.Type(), fld, 0)
+	}
+	tr.havocList(ts)
 }
 
 func (tr *Trans) inline(fn *ssa.Function, binds []Val, args []Val, resT types.Type) Val {
@@ -461,6 +550,13 @@ func unionProps(a, b []string) []string {
 		}
 	}
 	return out
+}
+
+func (tr *Trans) framePropsOf() []string {
+	if tr.contract != nil {
+		return unionProps(tr.contract.Props, tr.contract.FrameProps)
+	}
+	return nil
 }
 
 func (tr *Trans) propsOf() []string {
@@ -794,6 +890,10 @@ func (tr *Trans) havocTargets(env *Env, ct *Contract) {
 		tr.st = tr.g.havocAll(tr.st, nil)
 		return
 	}
+	tr.havocList(ts)
+}
+
+func (tr *Trans) havocList(ts []target) {
 	for _, t := range ts {
 		cur := tr.st.get(tr.e, t.key, t.sort)
 		if t.cond.ok() && t.cond.S == "false" {
